@@ -55,6 +55,7 @@ type interp struct {
 	errType  types.Type
 	funcs    map[string]bool // functions executed (coverage report)
 	onceDone map[*value]bool
+	syncMaps map[*value]*amap
 }
 
 func (i *interp) runtimeErrorType() types.Type {
@@ -308,8 +309,32 @@ func (i *interp) visitInstr(fr *frame, instr ssa.Instruction) continuation {
 		*addr = i.zero(deref(instr.Type()))
 
 	case *ssa.MakeSlice:
-		cp := i.mustInt(fr.get(instr.Cap), instr.Cap.Type(), "make cap")
 		ln := i.mustInt(fr.get(instr.Len), instr.Len.Type(), "make len")
+		var cp int64
+		if ct, isT := fr.get(instr.Cap).(*term.T); isT && !ct.IsConst() {
+			// symbolic capacity with a concrete length: the capacity only
+			// matters for the range check (the slice is fresh, so reallocation
+			// on append is unobservable); the slice gets capacity = length
+			_, signed, _ := intInfo(instr.Cap.Type())
+			w := ct.W
+			lo := i.ctx.BV(w, uint64(ln))
+			hi := i.ctx.BV(w, uint64(i.cfg.MaxAlloc))
+			var small, big *term.T
+			if signed {
+				small, big = i.ctx.Cmp(term.Slt, ct, lo), i.ctx.Cmp(term.Slt, hi, ct)
+			} else {
+				small, big = i.ctx.Cmp(term.Ult, ct, lo), i.ctx.Cmp(term.Ult, hi, ct)
+			}
+			if i.decide(small, "make cap < len") {
+				i.throw("makeslice: cap out of range")
+			}
+			if i.decide(big, "make cap > MaxAlloc") {
+				unsupported("make with a symbolic capacity that may exceed MaxAlloc")
+			}
+			cp = ln
+		} else {
+			cp = i.mustInt(fr.get(instr.Cap), instr.Cap.Type(), "make cap")
+		}
 		if ln < 0 || cp < ln {
 			i.throw("makeslice: len out of range")
 		}
